@@ -4,6 +4,7 @@ import ecanon
 import ereduce
 import eraw
 import eunits
+import i64table
 
 LEVEL = "E-CANON + E-TABLE.reduce + E-RAW"
 
@@ -30,4 +31,7 @@ def run(ctx):
                     "Clone, Borrowed cannot outlive its edge, edges are branded by the manager's invariant 'id and cannot "
                     "escape the locking closure.")
         witness.run(ctx)
+    ctx.explain("E-NUM.f64: MTBDD terminals are hash-consed by bitwise equality of F64, which is numeric equality only for "
+                "normalised values: F64 is built from constants or through the normalising From<f64> only.")
+    i64table.check_f64_constructors(ctx, F)
     ctx.not_decided = "the 'iff' over histories (gc, slot reuse, reordering); handle equality across managers"
